@@ -462,6 +462,21 @@ func BigPayloadStream(seed int64) []byte {
 	return BuildStream("big", lists, roundRobin(lists), nil).Bytes
 }
 
+// PoolBoundaryStream: PES units whose size - with and without the PES header - straddles the pooled
+// reassembly buffer's initial capacity (1024 bytes), each followed by a small unit that reuses the buffer.
+func PoolBoundaryStream(seed int64) []byte {
+	cc := []uint8{3, 9}
+	var a, b []*ref.Pkt
+	for i, n := range []int{1009, 20, 1010, 21, 1011, 22, 1023, 23, 1024, 24, 1025, 25, 1038, 26} {
+		a = append(a, Packetize(PESUnit(0x130, 0xe0, pesPayload(110+i, n, seed), uint64(i), false), nil, &cc[0], false)...)
+	}
+	for i, n := range []int{1015, 30, 1024, 31, 1004, 32} {
+		b = append(b, Packetize(PESUnit(0x131, 0xc0, pesPayload(130+i, n, seed), uint64(i), true), nil, &cc[1], false)...)
+	}
+	lists := [][]*ref.Pkt{a, b}
+	return BuildStream("pool-boundary", lists, roundRobin(lists), nil).Bytes
+}
+
 // RetainedSlicesStreams returns streams whose units make the parsers return every kind of
 // retained byte slice (PES extension private data, extension-2 data, adaptation-field
 // private data, descriptor names/texts/items of every family): used by C16's immutability
